@@ -6,7 +6,7 @@ nxt = {}
 for d in sorted(glob.glob("/verif/seeded/C*-*")):
     p, n = os.path.basename(d).split("-")
     nxt[p] = max(nxt.get(p, 0), int(n))
-for d in sorted(glob.glob("/tmp/seedwt/F*/_seed_out/*")):
+for d in sorted(glob.glob("/tmp/seedwt/%s*/_seed_out/*" % (sys.argv[1] if len(sys.argv) > 1 else "F"))):
     if not os.path.exists(d + "/patch.diff") or not os.path.exists(d + "/meta.txt"):
         continue
     first = open(d + "/meta.txt").read().strip().split("\n")[0]
